@@ -106,3 +106,10 @@ func TestMain(m *testing.M) {
 	stats.Flush()
 	os.Exit(code)
 }
+
+func envString(name, def string) string {
+	if v := os.Getenv(name); v != "" {
+		return v
+	}
+	return def
+}
